@@ -895,7 +895,7 @@ HELPER_MARGIN = 1e-3
 # the centre w0 = 0 makes fs_ctr_to_aff_ctr return NaN (0/0 for the direction)
 # on the unchanged tree: finding C20-fs-helper-origin, reported with a repair;
 # the class is driven only once that is fixed in /repo.
-HELPERS_DRIVE_ORIGIN = False
+HELPERS_DRIVE_ORIGIN = True      # F52 (def15c5) repaired the 0/0 at the origin
 
 
 def _helper_args(call, names):
